@@ -158,7 +158,12 @@ func GateSpecs(c *Ctx, prop string) []GateSpec {
 		s = append(s, GateSpec{Func: "(*proof.deniableProver).run", Sink: `store:\.err\[.*=.*not run`, NoRet: true, Exact: true})
 	case "C15":
 		s = rets("(*shuffle.PairShuffle).Verify", "(*shuffle.SimpleShuffle).Verify", "shuffle.thver", "shuffle.BiffleVerifier", "shuffle.Verifier",
-			"shuffle.GetSequenceVerifiable", "shuffle.assertXY", "shuffle.SequencesShuffle")
+			"shuffle.GetSequenceVerifiable", "shuffle.assertXY", "shuffle.SequencesShuffle",
+			// the biffle and the pair shuffle are verified through the predicate verifiers and the hash transcript
+			// of package proof (anchored by C15 too): their gates are obligations of this property as well
+			"(*proof.repPred).verify", "(*proof.andPred).verify", "(*proof.orPred).verify", "(*proof.proof).verify",
+			"(*proof.repPred).getCommits", "(*proof.andPred).getCommits", "(*proof.orPred).getCommits", "(*proof.proof).getResponses",
+			"proof.HashVerify", "(*proof.hashVerifier).PubRand", "(*proof.hashVerifier).consumeMsg", "(*proof.hashVerifier).Get")
 	case "C16":
 		s = rets("encrypt/ecies.Decrypt", "encrypt/ecies.deriveKey", "encrypt/ecies.Encrypt",
 			"encrypt/ibe.DecryptCCAonG1", "encrypt/ibe.DecryptCCAonG2", "encrypt/ibe.EncryptCCAonG1", "encrypt/ibe.EncryptCCAonG2",
